@@ -23,7 +23,8 @@ FailProp(o) == IF Has(o.case, "failprop") THEN o.case.failprop ELSE "C20"
 StatusVerdicts(o) ==
   LET exp == IF Has(o.case, "expect") THEN o.case.expect ELSE "ok" IN
   IF Has(o, "answered") /\ ~o.answered THEN {Fail(FailProp(o), "no-answer", ""), Fail("C20", "no-answer", "")}
-  ELSE IF exp = "ok" /\ o.status # 200 THEN {Fail(FailProp(o), "rejected", "")}
+  ELSE IF exp = "ok" /\ o.status # 200
+       THEN {Fail(FailProp(o), "rejected", "")} \cup (IF Has(o.case, "failprop2") THEN {Fail(o.case.failprop2, "rejected", "")} ELSE {})
   ELSE IF exp = "reject" /\ o.status = 200 THEN {Fail(FailProp(o), "accepted", "")}
   ELSE {}
 
